@@ -7,3 +7,4 @@ import Helm.Props.C05
 #print axioms Helm.Props.C05.env_functions_removed
 #print axioms Helm.Props.C05.extra_functions_are_spec
 #print axioms Helm.Props.C05.dns_stubbed_unless_enabled
+#print axioms Helm.Props.C05.render_loops_range_over_sorted_keys
